@@ -11,7 +11,7 @@ CLAIMED = {
    level="model_checking",
    text="TLC explores the complete (stored, memo) state space of the TypeContext model (all histories of any length over the closed key family) and checks that the write-back implementation refines the write-once reference lookup; every transition of the full-family model is executed on the real class and random real operation sequences are validated event by event against the reference by TLC.",
    ref="DESIGN.md section 4 C16",
-   note="Trusted: TLC, CommunityModules Json; the Python projection of dict keys/values to [b,f] records; bounded to the closed key family (3 bases x 10 forms in traces, complete state space for 1 base x 10 forms and 2-3 bases x 6 forms)."),
+   note="Trusted: TLC, CommunityModules Json; the Python projection of dict keys/values to [b,f] records; bounded to the closed key family (3 bases x 14 forms in traces -- the flat forms plus NewType over alias / NewType / string alias and Final[NewType]; complete state space for 1 base x 10 and x 14 forms and 2-3 bases x 6 forms; one base is a class nested in a class)."),
  "C08": dict(
    engine="Union",
    technique="TLA+ spec Union.tla (reference relation UnionRef + try/suppress loop), exhaustive TLC over member tuples/outcomes; real union routines vs independently built member routines, validated by TLC trace spec Union_Trace.tla",
@@ -23,14 +23,14 @@ CLAIMED = {
    engine="Iter",
    technique="TLA+ spec Iter.tla (ItemsRef/ValuesRef vs peek/strategy implementation layer), exhaustive TLC over [kind, element shapes]; every TLC-emitted input materialised and run on serdes.iteritems/itervalues, validated by TLC trace spec Iter_Trace.tla",
    level="model_checking",
-   text="TLC enumerates every input description (20 class kinds x element-shape sequences up to the bound), checks the implementation-shaped model against the reference outside the one listed deviation, and emits each case; the harness materialises each one as a real object, runs the real functions twice (strategy memo cold and warm, both class orders) and TLC validates every observation against ItemsRef/ValuesRef.",
+   text="TLC enumerates every input description (22 class kinds incl. classes inheriting their first fields x sequences of 8 element shapes incl. the empty tuple, up to the bound; the empty input for every kind), checks the implementation-shaped model against the reference outside the one listed deviation, and emits each case; the harness materialises each one as a real object, runs the real functions twice (strategy memo cold and warm, both class orders) and TLC validates every observation against ItemsRef/ValuesRef.",
    ref="DESIGN.md section 4 C18",
    note="Trusted: TLC; the tagging projection of yielded items; bounded to length 3 (quick) / 4 (thorough); 2-character-string elements unasserted."),
  "C10": dict(
    engine="Binding",
    technique="TLA+ spec Binding.tla (Python call binding BindRef vs transcribed _get_binding + 32-row matrix + 17 binders), exhaustive TLC over signatures x call shapes; every emitted (signature, call) executed through bind()/wrap() on generated callables, validated by TLC trace spec Binding_Trace.tla",
    level="model_checking",
-   text="TLC checks for every legal signature of up to 4 (thorough: 5) parameters and every call shape that the transcribed binder selected by the matrix converts each argument with the unmarshaller of the parameter Python binds it to (and shows the pinned table violating this). Each emitted (signature, call) is then materialised as a real function / method / callable instance / class / factory closure whose parameters are annotated with distinct Enum classes, called through bind() and wrap(), and TLC validates every observation (landing parameter, converting class, TypeError on rejected calls, wrap metadata) against BindRef; BindRef's acceptance is audited against real Python calls.",
+   text="TLC checks for every legal signature of up to 4 (thorough: 5) parameters and every call shape that the transcribed binder selected by the matrix converts each argument with the unmarshaller of the parameter Python binds it to (and shows the pinned table violating this). Each emitted (signature, call) is then materialised as a real function / method / callable instance / class / factory closure (after a decoy product) / method bound through an instance after the same function was bound through the class / class with a pass-through __new__ (wrap only) whose parameters are annotated with distinct Enum classes, called through bind() and wrap(), and TLC validates every observation (landing parameter, converting class, TypeError on rejected calls, wrap metadata) against BindRef; BindRef's acceptance is audited against real Python calls.",
    ref="DESIGN.md section 4 C10",
    note="Trusted: TLC; the Enum-per-parameter trick identifying the converter; quick replays <=3-parameter signatures (unannotated variants <=2), thorough adds all 4-parameter signatures."),
  "C20": dict(
@@ -51,9 +51,9 @@ CLAIMED = {
    engine="Wire",
    technique="TLA+ specs Terms.tla (type universe, class table) + Wire.tla (structural conformance Conf with named clauses); TLC enumerates the universe, the harness feeds junk and corrupted wire forms to the real unmarshal, TLC trace spec Wire_Trace.tla judges every returned value with Conf",
    level="model_checking",
-   text="TLC enumerates the bounded type universe (all leaves, every collection/mapping spelling, fixed tuples, unions, 15 synthesised classes of every flavour incl. recursive and same-named ones, wrapper chains) and emits each type; for each the real unmarshal is called on a junk pool and on every single-step corruption of real wire forms, and every returned value is checked by the TLA+ structural type checker Conf (runtime class at every position, arity, required keys, Literal/Enum membership), evaluated by TLC on the recorded events.",
+   text="TLC enumerates the bounded type universe (all leaves, every collection/mapping spelling, fixed tuples, unions, 30 synthesised classes of every flavour incl. recursive and same-named ones, inheritance, mixed-totality and typing_extensions TypedDicts, wrapper chains, one wrapper object reached on two paths, aliases of None) and emits each type; the universe is run in three process orders (in order; reversed and class-free-first in forked processes that have not called the library), and for each type the real unmarshal is called on a junk pool and on every single-step corruption of real wire forms, and every returned value is checked by the TLA+ structural type checker Conf (runtime class at every position, arity, required keys, Literal/Enum membership), evaluated by TLC on the recorded events.",
    ref="DESIGN.md section 4 C03",
-   note="Trusted: TLC; the projection of values to terms (harness/terms.py); Conf as the meaning of 'conforms'. Universe bounded to depth 2 with representative members; corruptions computed by the harness."),
+   note="Trusted: TLC; the projection of values to terms (harness/terms.py); Conf as the meaning of 'conforms'. Universe bounded to depth 2 with representative members (thorough adds 1,500 deeper terms drawn by tlc -simulate from spec/TermsSim.tla); corruptions computed by the harness."),
  "C13": dict(
    engine="Wire",
    technique="TLA+ specs Terms.tla + Wire.tla (Exact: value made of exactly the annotated classes); TLC-enumerated universe, pool values and junk fed to the real unmarshal, TLC trace spec Wire_Trace.tla checks r = v (pass-through) and u(u(x)) = u(x) (idempotence)",
@@ -63,58 +63,58 @@ CLAIMED = {
    note="Trusted: TLC; term projection; values drawn from the per-leaf pools of harness/typeterms.py (boundary-biased, not exhaustive)."),
  "C01": dict(
    engine="Wire",
-   technique="TLA+ specs Terms.tla + Wire.tla (Exact, set-insensitive wire equality WEq); TLC-enumerated universe x pool values through the real marshal/unmarshal/marshal, TLC trace spec Wire_Trace.tla applies the strict law r = v or, for ambiguous unions, the weak fixpoint",
+   technique="TLA+ specs Terms.tla (+TermsSim.tla for simulated deeper terms) + Wire.tla (Exact, set-insensitive wire equality WEq, reference marshalling relation IsWireOf); TLC-enumerated universe x pool values through the real marshal/unmarshal/marshal, TLC trace spec Wire_Trace.tla applies the strict law r = v or, for ambiguous unions, the weak fixpoint",
    level="model_checking",
-   text="For every type of the TLC-enumerated universe and boundary-biased valid values, the real marshal -> unmarshal -> marshal chain is recorded; TLC confirms Exact(T, v), then requires the projected result term to equal the projected input (runtime class at every position, UTC offset, microseconds) unless a union inside T is ambiguous, and requires the second wire form to equal the first (modulo element order under set types) always. Scalars are visited twice in opposite orders with warm value memos.",
+   text="For every type of the TLC-enumerated universe and boundary-biased valid values, the real marshal -> unmarshal -> marshal chain is recorded; TLC confirms Exact(T, v), then requires the projected result term to equal the projected input (runtime class at every position, UTC offset, microseconds) unless a union inside T is ambiguous, and requires the second wire form to equal the first (modulo element order under set types) always. Scalars are visited twice in opposite orders with warm value memos. The marshalled form is also compared with the reference relation IsWireOf (reported as drift: no listed property fixes the wire format).",
    ref="DESIGN.md section 4 C01",
    note="Trusted: TLC; term projection; union ambiguity is decided with the real member routines over the member pools (it only selects which law applies, and is broader than the statement: marshal-side take-over counts too). Values come from finite pools."),
  "C06": dict(
    engine="Wire",
    technique="TLA+ specs Terms.tla + Wire.tla (IsWire with exact builtin classes); TLC-enumerated universe x pool values and their subclass-instance variants through the real marshallers, TLC trace spec Wire_Trace.tla checks IsWire plus logged json/determinism/aliasing/intactness facts",
    level="model_checking",
-   text="For every type of the TLC-enumerated universe, pool values and variants rebuilt from subclass instances (int/str/list subclasses, OrderedDict, pendulum temporals) are marshalled three times (twice in a row and once after all other values of the type); TLC evaluates IsWire on the projected output (exact NoneType/bool/int/float/str/list/dict at every position, primitive keys) and asserts the harness-measured facts: accepted by json.dumps, identical on every call, no mutable container shared with the input, input unchanged; Literal non-members must raise ValueError.",
+   text="For every type of the TLC-enumerated universe, pool values and variants rebuilt from subclass instances (int/str/list subclasses, OrderedDict, pendulum temporals) are marshalled three times (twice in a row and once after all other values of the type); TLC evaluates IsWire on the projected output (exact NoneType/bool/int/float/str/list/dict at every position, primitive keys) and asserts the harness-measured facts: accepted by json.dumps, identical on every call, no mutable container shared with the input, input unchanged; Literal non-members must raise ValueError. Every marshal() call made by the repository's own test suite (recorded passively by a pytest plugin) is judged by the same clauses.",
    ref="DESIGN.md section 4 C06",
    note="Trusted: TLC; term projection with exact class names; aliasing (id walks) and json.dumps verdict are measured in Python and only asserted by the trace spec."),
  "C09": dict(
    engine="Graph",
    technique="TLA+ spec Graph.tla (BFS, visited set, cut rule, predecessor relation vs Acyclic/MembersFirst/CyclicImpliesRevisit/DeferredDenotesExactly), exhaustive TLC over class-graph topologies; TLC-emitted topologies and the value universe materialised, real static_order() sequences validated by TLC trace spec Graph_Trace.tla over opaque type ids with stdlib-derived member facts",
    level="model_checking",
-   text="TLC explores the graph-construction algorithm over every topology of 2 classes x <=2 fields x edge kinds x every root (thorough: all five edge kinds, and 3 classes) and checks termination, acyclicity of the dependency relation (so every linear extension exists), members-before-containers, and that deferred nodes are revisits denoting exactly their type; it also demonstrates that the pinned cut rule and an intermediate revision violate these. Every emitted (topology, root) is materialised as real classes (four flavours, one or two modules), static_order() is called, and TLC evaluates eight invariants on each observed node sequence using member facts computed with typing.get_args/get_type_hints; equivalent root spellings (memoised, NewType, alias, ForwardRef) must give the same sequence.",
+   text="TLC explores the graph-construction algorithm over every topology of 2 classes x <=2 fields x edge kinds x every root (thorough: all five edge kinds, and 3 classes) and checks termination, acyclicity of the dependency relation (so every linear extension exists), members-before-containers, and that deferred nodes are revisits denoting exactly their type; it also demonstrates that the pinned cut rule and an intermediate revision violate these. Every emitted (topology, root) is materialised as real classes (four flavours, one or two modules), static_order() is called, and TLC evaluates ten clauses on each observed node sequence using member facts computed with typing.get_args/get_type_hints; equivalent root spellings (memoised, NewType, alias, ForwardRef) must give the same sequence. Further sources: every type of the value universe, classes first walked before a field type was defined, and every root the repository's own test suite passes to static_order (recorded passively).",
    ref="DESIGN.md section 4 C09",
-   note="Trusted: TLC; the id projection (Python == on annotations); typing.get_type_hints/get_args as the definition of direct members. Classes nested in classes are not generated (see DESIGN.md)."),
+   note="Trusted: TLC; the id projection (Python == on annotations); typing.get_type_hints/get_args as the definition of direct members. Classes nested in classes are not generated in the graph universe (C16 has one)."),
  "C05": dict(
    engine="Member",
-   technique="TLA+ specs Terms.tla (universe with adversarial class table) + Member_Trace.tla (memberwise relation and exception parity evaluated by TLC); real composite routines vs composites rebuilt from independently obtained member routines, over every documented source shape",
+   technique="TLA+ specs Terms.tla (universe with adversarial class table) + Member_Trace.tla (memberwise relation and exception parity evaluated by TLC): real composite routines vs composites rebuilt from independently obtained member routines, over every documented source shape; plus spec Factory.tla -- the routine factory (graph walk, context writes, member resolution, proxies) model-checked over every 2-class topology x root x build order, four wrong variants required to fail -- bound to the code by Factory_Trace.tla judging the routine tables of the real unmarshaller()/marshaller()",
    level="model_checking",
-   text="For every composite type of the TLC-enumerated universe (class table with same-named classes in two modules, shared field names with different types, recursive/mutually recursive classes, aliases as members) the real marshal/unmarshal of the whole value is compared by TLC with the composite rebuilt from the outcomes of separately obtained member routines, in both directions, for every documented source shape (mapping, iterable of pairs, JSON text/bytes, literal text, foreign object, tuple, generator) and in both class visiting orders; when a member rejects, the composite must raise too.",
+   text="For every composite type of the TLC-enumerated universe (class table with same-named classes in two modules, shared field names with different types, recursive/mutually recursive classes, aliases as members) the real marshal/unmarshal of the whole value is compared by TLC with the composite rebuilt from the outcomes of separately obtained member routines, in both directions, for every documented source shape (mapping, iterable of pairs, JSON text/bytes, literal text, foreign object, tuple, and one-shot sources: generator, iter, map, zip, items view) and in both class visiting orders; when a member rejects, the composite must raise too. TLC also checks the Factory model (BuildNeverFails, RoutingCorrect, RootIsReal, ProxiesDenoteTypes, termination) and emits its (topology, root) cases; for each the real factories are built (never called) and Factory_Trace.tla judges kind and type of every member slot with the model's own operators.",
    ref="DESIGN.md section 4 C05",
-   note="Trusted: TLC; the harness's decomposition of inputs and rebuild with Python constructors; term projection. The routing-table (implementation-shaped) model is the graph model of C09; Factory-level routing is checked behaviourally here."),
+   note="Trusted: TLC; the harness's decomposition of inputs and rebuild with Python constructors; term projection. Routine tables are read from the routine objects' attributes; a table that cannot be read back is drift, not a violation."),
  "C07": dict(
    engine="Graph",
    technique="TLA+ spec Graph.tla (termination and cut rule over all cycle topologies, liveness under fairness) + Member_Trace.tla (per-level events); TLC-emitted cycle topologies materialised, routines built under a watchdog, values unrolled to depth d, each recursion level validated by TLC",
    level="model_checking",
-   text="TLC proves on the graph model that construction terminates and every cycle is cut for every topology of up to 2 classes x 2 fields (and 3 classes x 1 field) with every class or container as root. Each emitted cyclic (topology, root) is materialised (four class flavours, one or two modules); marshaller, unmarshaller and codec are built under a watchdog, and for each depth the raw wire value is unmarshalled, walked level by level (one flat event per level: right class, every scalar converted), marshalled back and sent through the codec; TLC validates every event.",
+   text="TLC proves on the graph model that construction terminates and every cycle is cut for every topology of up to 2 classes x 2 fields (and 3 classes x 1 field) with every class or container as root. Each emitted cyclic (topology, root) is materialised (four class flavours, one or two modules); marshaller, unmarshaller and codec are built under a watchdog, and for each depth the raw wire value is unmarshalled, walked level by level (one event per value with a flag per level: right class, every scalar converted; at depths 1-3 also given as a tree of instances whose members still hold wire values), marshalled back and sent through the codec; TLC validates every event.",
    ref="DESIGN.md section 4 C07",
-   note="Trusted: TLC; the harness's level walker and value unroller; depth counts class levels (12 quick, 150 thorough); below the second level values are paths rather than full trees."),
+   note="Trusted: TLC; the harness's level walker and value unroller; depth counts class levels (0-12 quick; thorough adds 50, 100, 150 on a sample); below the second level values are paths rather than full trees. Known finding KF-C07-01 at depth 150 only."),
  "C11": dict(
    engine="Member",
    technique="TLA+ specs Terms/Wire (Strip) + Member_Trace.tla ('pair' relation evaluated by TLC); wrapper chains x positions x reference origins materialised in generated modules, W(T) vs T compared on marshal/unmarshal/encode/decode",
    level="model_checking",
-   text="Wrapper chains of length <=3 over NewType / TypeAliasType (value and string) with Final/ClassVar where Python permits, over 10 base types, are placed at root, collection argument, mapping value, tuple member, union member, class field and on the back-edge of a recursive class, and referred to as objects, by string from the defining module (also from three nested calls), by ForwardRef(module=) and by module-qualified string; for every input the outcome with W(T) must equal the outcome with T (value terms equal, or both raise), which TLC checks event by event.",
+   text="Wrapper chains of length <=3 over NewType / TypeAliasType (value and string) with Final/ClassVar where Python permits, over 10 base types, are placed at root, collection argument, mapping value, tuple member, union member, class field, class field after a plain field of the same type, in a holder declared in another module, after the plain type in a tuple, and on the back-edge of a recursive class, and referred to as objects, by string from the defining module (also from three nested calls), by ForwardRef(module=), by module-qualified string, by a string naming the module twice and by a ForwardRef used as a list argument; for every input the outcome with W(T) must equal the outcome with T (value terms equal, or both raise), which TLC checks event by event.",
    ref="DESIGN.md section 4 C11",
    note="Trusted: TLC; term projection; twin classes compared up to their name. typelib's memos are cleared before each string-referenced call (the cross-module poisoning of the reference memo is C12's subject). Strip idempotence is checked at model level on the Terms universe."),
  "C15": dict(
    engine="Member",
    technique="TLA+ spec Terms.tla (extended annotation grammar enumerated by TLC) + Member_Trace.tla ('build' events); every emitted annotation built (unmarshaller, marshaller, codec) under a watchdog, sentinel pass-through probes, rebuild memoised and after cache clearing",
    level="model_checking",
-   text="TLC enumerates the extended annotation grammar (28 extension leaves -- Any, object, bare builtin/typing generics, free/bound/constrained TypeVars, Callable forms, type[X], bare and parameterised user generics, classes without hints -- under 11 constructors incl. two variadic tuples and class fields; depth 2 over all leaves in thorough) and the ordinary universe; for each annotation the three factories must return without error or non-termination, a sentinel object placed at every reachable pass-through position must come back identical through unmarshal and marshal, and rebuilding (memoised, and after clearing every cache) must give the same behaviour; TLC validates each build event.",
+   text="TLC enumerates the extended annotation grammar (29 extension leaves -- Any, object, bare builtin/typing generics, free/bound/constrained TypeVars, Callable forms, type[X], bare and parameterised user generics, classes without hints -- under 11 constructors incl. two variadic tuples and class fields; depth 2 over all leaves in thorough) and the ordinary universe; for each annotation the three factories must return without error or non-termination, a sentinel object placed at every reachable pass-through position must come back identical through unmarshal and marshal, and rebuilding (memoised, and after clearing every cache) must give the same behaviour; TLC validates each build event.",
    ref="DESIGN.md section 4 C15",
    note="Trusted: TLC; the probe construction in the harness. Termination of graph construction itself is proved on the Graph model (C09/C07)."),
  "C14": dict(
    engine="Carriers",
-   technique="TLA+ spec Carriers.tla (load() with its memo as state over texts x carriers, LoadRef) checked exhaustively by TLC; real unmarshal/load/strload/decode over texts x 5 carriers x the type universe validated by TLC trace spec Carriers_Trace.tla with stdlib json/ast facts",
+   technique="TLA+ spec Carriers.tla (load() with its memo as state over texts x carriers, caller-side mutation of returned containers, LoadRef) checked exhaustively by TLC; real unmarshal/load/strload/decode over texts x 5 carriers x the type universe validated by TLC trace spec Carriers_Trace.tla with stdlib json/ast facts",
    level="model_checking",
-   text="TLC explores every load() history over a text pool in the five carriers with the LRU memo as a state variable and checks carrier-freedom and agreement with LoadRef (and shows that memoising on the carrier object violates it). On the real code, every type of the TLC universe is fed the same text in str/bytes/bytearray/memoryview(bytes)/memoryview(bytearray) and TLC requires equal outcomes or rejection by all; load/strload/decode are run over ~80 adversarial texts with facts from the standard json and ast modules; JSON text, literal text and the decoded wire value must unmarshal alike for collection, mapping and structured types.",
+   text="TLC explores every load() history over a text pool in the five carriers with the LRU memo as a state variable and checks carrier-freedom and agreement with LoadRef (and shows that memoising on the carrier object, or handing out the memo's own containers, violates it). On the real code, every type of the TLC universe is fed the same text in str/bytes/bytearray/memoryview(bytes)/memoryview(bytearray) and TLC requires equal outcomes or rejection by all; load/strload/decode are run over 63 adversarial texts with facts from the standard json and ast modules, each load/strload again after the returned container was deep-mutated; JSON text, literal text and the decoded wire value must unmarshal alike for collection, mapping and structured types.",
    ref="DESIGN.md section 4 C14",
    note="Trusted: TLC; stdlib json (strict) and ast.literal_eval as fact sources; texts where strict and lenient JSON decoders disagree are excluded."),
  "C02": dict(
@@ -126,11 +126,11 @@ CLAIMED = {
    note="Trusted: TLC; stdlib json as independent parser; term projection. Ambiguous-union types are outside (C01 weak law)."),
  "C12": dict(
    engine="Caches",
-   technique="TLA+ spec Caches.tla (memo layers keyed by equality class vs observable detail, shared mutable results, clear) explored exhaustively by TLC; every abstract history instantiated in 13 families of colliding arguments, run warm in a fresh fork and compared call by call with the same call in a cold fork, validated by TLC trace spec Caches_Trace.tla",
+   technique="TLA+ spec Caches.tla (memo layers keyed by equality class vs observable detail, shared mutable results, clear) explored exhaustively by TLC; every abstract history instantiated in 27 families of colliding arguments, run warm in a fresh fork and compared call by call with the same call in a cold fork, validated by TLC trace spec Caches_Trace.tla",
    level="model_checking",
-   text="TLC enumerates every operation history up to the bound over calls with arguments [equality class, detail], deep mutation of an earlier call's result and input, and cache clearing, and checks history-freedom of the reference memo (and that a detail-blind key or a shared result object violates it). Each emitted history is instantiated in 13 concrete families (union member orders at root and nested, equal instants with different offsets, text carriers, bare containers, 1/1.0/True, same-named classes, string references from two modules, recursive types, codec configurations, dateparse targets), executed in a fresh fork, and every call's outcome is compared by TLC with the outcome of the same call alone in another fresh fork of a zygote that never called the library; inputs must stay unmutated and earlier results unaffected.",
+   text="TLC enumerates every operation history up to the bound over calls with arguments [equality class, detail], deep mutation of an earlier call's result and input, and cache clearing, and checks history-freedom of the reference memo (and that a detail-blind key or a shared result object violates it). Each emitted history is instantiated in 27 concrete families (union member orders at root and nested, equal instants with different offsets, text carriers, bare containers, 1/1.0/True, same-named classes, string references from two modules, recursive types, codec configurations, dateparse targets, routine kinds of one class in every build order, different inputs / value classes for one routine, private init fields, text decoding to nested containers, == durations of different classes, temporal -> text targets, == mapping keys, annotations of one runtime origin, the same input object again after a failed call), executed in a fresh fork, and every call's outcome is compared by TLC with the outcome of the same call alone in another fresh fork of a zygote that never called the library; inputs must stay unmutated and earlier results unaffected.",
    ref="DESIGN.md section 4 C12",
-   note="Trusted: TLC; os.fork of a zygote as 'cold process'; term projection. Histories of length 4 (quick, 220 sampled per family) / 5 (thorough, all)."),
+   note="Trusted: TLC; os.fork of a zygote as 'cold process'; term projection. Histories of length 4 (quick, 170 sampled per family) / 5 (thorough, all); 4 / 12 zygotes in parallel."),
  "C04": dict(
    engine="Scalars",
    technique="TLA+ spec Scalars.tla (routing law table, ISO-8601 duration token algebra model-checked by TLC over a boundary grid); real scalar parse/emit events over boundary + seeded Hypothesis values in 5 carriers under two time zones with warmed memos, validated by TLC trace spec Scalars_Trace.tla against standard-library facts",
@@ -140,9 +140,9 @@ CLAIMED = {
    note="Trusted: TLC; Python's str()/isoformat()/fromisoformat()/Decimal/Fraction/UUID parsers as oracle; the regex duration tokenizer. time -> number (depends on today's date) is not asserted."),
  "C17": dict(
    engine="Dispatch",
-   technique="TLA+ spec Dispatch.tla (each predicate as a definition over primitive runtime facts) evaluated by TLC on recorded predicate calls (Dispatch_Trace.tla); facts extracted with typing/issubclass/dataclasses only",
+   technique="TLA+ spec Dispatch.tla (each predicate as a definition over primitive runtime facts; the two ordered dispatch tables as first-match rows) evaluated by TLC on recorded predicate calls and factory choices (Dispatch_Trace.tla); facts extracted with typing/issubclass/dataclasses only",
    level="other",
-   text="A catalogue differential whose oracle is composed in TLA+: 35 predicates are definitions over primitive facts (issubclass of the resolved class against named bases, typing.get_origin/get_args, special-form flags) extracted at check time without typelib for ~150 objects; TLC evaluates Def(p, facts) for every recorded call and checks agreement, no raise inside the domain, stability across calls (second pass in reverse order), equal answers across spellings of one type, origin()/args() against typing, and instantiable origins of collection annotations.",
+   text="A catalogue differential whose oracle is composed in TLA+: 35 predicates are definitions over primitive facts (issubclass of the resolved class against named bases, typing.get_origin/get_args, special-form flags) extracted at check time without typelib for 172 objects (incl. generic TypedDict / dataclass / NamedTuple); TLC evaluates Def(p, facts) for every recorded call and checks agreement of the cold answer (every memo cleared before each question), no raise inside the domain, stability across calls (warm passes in both object orders), equal answers across spellings of one type inside the domain, origin()/args() against typing, and instantiable origins of collection annotations; the routine classes the real factories choose are compared with the first matching rows of the transcribed tables (drift).",
    ref="DESIGN.md section 4 C17",
    note="TLC contributes definitions and evaluation, not state exploration. Trusted: the fact extractor (stdlib), the resolution rule (NewType/alias/ClassVar, typing origin, documented abstract->builtin map)."),
 }
@@ -154,7 +154,7 @@ ENGINES = {
  "Caches": dict(path="spec/Caches.tla", kind="TLA+ spec + TLC (exhaustive histories, emission, trace validation) + harness/zygote.py + harness/drivers/c12.py"),
  "Codec": dict(path="spec/Codec.tla", kind="TLA+ spec + TLC (exhaustive histories, trace validation) + harness/drivers/c02.py"),
  "Carriers": dict(path="spec/Carriers.tla", kind="TLA+ spec + TLC (exhaustive histories, trace validation) + harness/drivers/c14.py"),
- "Member": dict(path="spec/Member_Trace.tla", kind="TLA+ trace spec over Terms/Wire + harness/drivers c05 c07 c11 c15"),
+ "Member": dict(path="spec/Member_Trace.tla", kind="TLA+ trace spec over Terms/Wire + spec/Factory.tla, Factory_Trace.tla (routine factory model, TLC exhaustive + trace validation) + harness/routing.py + harness/drivers c05 c07 c11 c15"),
  "Graph": dict(path="spec/Graph.tla", kind="TLA+ spec + TLC (exhaustive incl. liveness, topology emission, trace validation) + harness/drivers/c09.py"),
  "Wire": dict(path="spec/Wire.tla", kind="TLA+ specs Terms.tla/Wire.tla/Wire_Trace.tla + TLC (universe enumeration, trace validation) + harness/valuestream.py, harness/typeterms.py, drivers c01 c03 c06 c13"),
  "Slotted": dict(path="spec/Slotted.tla", kind="TLA+ spec + TLC (exhaustive, history emission, trace validation) + harness/drivers/c19.py"),
